@@ -92,5 +92,6 @@ def conds(tier):
         sh = ["opt", "mk", "v"] + (["h"] if m * n >= 8 else []) + (["lp1"] if m ** n >= 60 else []) + (["nf"] if n >= 5 else [])
         cs.append(Cond("counts-m%d-n%d" % (m, n), "harness.c08:counts", ps, fixed={"m": m, "n": n},
                        pre=[e1_wf_expr(m, n), "mk or (v == 0 and h == 0 and not nf)"], shard=sh,
+                       skip=lambda sf: (not sf["mk"]) and bool(sf.get("v", 0) or sf.get("h", 0) or sf.get("nf", False)),
                        timeout=600 if q else 3000, functions=FUNCS, note="counts c1..c8: unbounded symbolic positive integers"))
     return cs
